@@ -114,7 +114,7 @@ func (r *Server) Send(datagram string) error {
 	return err
 }
 
-// Barrier sends a sentinel counter and waits until it has been flushed and two more flushes have happened: everything
+// Barrier sends a sentinel counter and waits until it has been flushed and two more whole flushes have happened: everything
 // sent before on the same socket has then been flushed as well (a datapoint can sit in a worker's queue across one flush).
 func (r *Server) Barrier(timeout time.Duration) bool {
 	r.seq++
@@ -138,7 +138,8 @@ func (r *Server) Barrier(timeout time.Duration) bool {
 				}
 			}
 		}
-		if seenAt >= 0 && len(maps) >= seenAt+3 {
+		// a flush hands the backend one map per worker: wait for two whole flushes after the one with the sentinel
+		if w := r.Srv.MaxWorkers; seenAt >= 0 && w > 0 && len(maps) >= (seenAt/w+3)*w {
 			return true
 		}
 		select {
